@@ -303,6 +303,15 @@ func Run(c *core.Ctx) int {
 		t := tcase{Op: op, V1: randVal(r, 62), E1: uint32(r.Intn(10)), V2: randVal(r, 40), E2: uint32(r.Intn(10)), N: int64(r.Intn(10)), Stream: "outside"}
 		cases = append(cases, t)
 	}
+	// (iv) the two conversions between amounts and percentages only move the decimal
+	// point: exact over the whole int64 range (judged, not informational)
+	nw := c.Pick(10000, 200000)
+	for i := 0; i < nw; i++ {
+		op := []string{"pctFromAmount", "pctAmount"}[r.Intn(2)]
+		v := randVal(r, 63)
+		e := uint32(r.Intn(19))
+		cases = append(cases, tcase{Op: op, V1: v, E1: e, V2: v, E2: e, Stream: "pct-wide"})
+	}
 
 	return runCases(c, cases)
 }
@@ -360,6 +369,6 @@ func runCases(c *core.Ctx, cases []tcase) int {
 	if outsideDisagree > 0 {
 		c.Note("%d cases outside the 2^52 domain where the float model and Go differ (informational; the property does not speak there)", outsideDisagree)
 	}
-	return c.Finish("exhaustive grid of small values x exponent pairs x ops, tie-forcing stream (exact result at k+1/2 or one unit off, both signs), random in-domain stream, and an informational out-of-domain stream; non-trivial = in-domain case whose result differs from the first operand; distinct by request text",
+	return c.Finish("exhaustive grid of small values x exponent pairs x ops, tie-forcing stream (exact result at k+1/2 or one unit off, both signs), random in-domain stream, the amount/percentage conversions over the whole int64 range, and an informational out-of-domain stream; non-trivial = in-domain case whose result differs from the first operand; distinct by request text",
 		map[string]any{"outside_domain_disagreements": outsideDisagree})
 }
